@@ -1,5 +1,5 @@
 """C05 — child-process wrappers never deadlock and always complete in order."""
-import base64, os
+import sys, base64, os
 import pvlib, wrappers
 from pvlib import hx
 
@@ -82,6 +82,18 @@ def run(ctx):
                                        "stderr": err.decode(errors="replace")[-300:]},
                                        summary=f"{' '.join(base)} cat on {data!r}: {what}")
                 break
+    # more records in flight than any plausible bound on the backlog between the threads: 6000 documents with a child that reads
+    # everything first, and 6000 EMPTY documents (one byte each to the child: thousands fit into the stream buffer unflushed) with cat
+    for label, docs6k, child in (("6000 documents, child reads everything first", [b"doc %d\n" % i for i in range(6000)], [sys.executable, os.path.join(pvlib.VERIF, "harness", "children", "child.py"), "readall"]),
+                                 ("6000 empty documents, cat", [b""] * 6000, ["cat"]), ("9000 one-line documents, cat", [b"x\n"] * 9000, ["cat"])):
+        data = b"".join(base64.b64encode(d) + b"\n" for d in docs6k)
+        st, out, err = pvlib.run_tool([ctx.bin("b64filter")] + child, data, env=pvlib.san_env(), timeout=60)
+        ctx.count("wrapper-many-documents", 1, [label])
+        if st != 0 or out != data:
+            what = "did not terminate (deadlock)" if st == "HANG" else f"status {st}, {out.count(10)} of {len(docs6k)} output lines"
+            pvlib.report_violation(ctx, f"wrapper-many-docs:{label}", {"argv": ["b64filter"] + [os.path.basename(c_) for c_ in child], "generator": label, "status": st,
+                                   "stderr": err.decode(errors="replace")[-300:]}, summary=f"b64filter on {label}: {what}")
+            break
     # paced input: the producer of stdin stalls around the queue-page multiples so that the output thread is fully caught up there
     for tool, base in (("cache", ["cache"]), ("foldfilter", ["foldfilter", "-w", "30"]), ("b64filter", ["b64filter"])):
         data, pauses = wrappers.paced_corpus(tool)
